@@ -68,11 +68,14 @@ theorem int64_text_round_trip (i : Int) (h : IsI64 i) : parseInt64 (fmtInt i) = 
 theorem object_round_trip (L : Leaf) (hL : LeafLaws L) (o : Obj) (h : ObjOK L o) : parseObject L (printObj L o) = some o :=
   parseObject_printObj L hL o h
 
-/-- A whole triple. -/
+/-- A whole triple — whatever its predicate's ID holds (white space, `] /`, quotes): the object is looked for past the
+    quoted ID (`scanQuoted`; before 6b37d2b the splitter matched `] /` INSIDE the quoted ID `"x] /y"`, and the former
+    hypothesis `noSpace t.p.id` hid that). `QuoteScans`: scanning the printed ID, a backslash taking the next byte with it,
+    stops at its closing quote — a property of `%q`, evaluated on Go by `bwh leaflaws`. -/
 theorem triple_round_trip (L : Leaf) (hL : LeafLaws2 L) (t : Triple)
-    (hs : NodeOK t.s) (hsty : noSpace t.s.ty) (hsid : noSpace t.s.id) (hp : noSpace t.p.id) (hpo : PredOK L t.p) (ho : ObjOK L t.o) :
+    (hs : NodeOK t.s) (hsty : noSpace t.s.ty) (hsid : noSpace t.s.id) (hq : QuoteScans L t.p.id) (hpo : PredOK L t.p) (ho : ObjOK L t.o) :
     parseTriple L (printTriple L t) = some t :=
-  parseTriple_printTriple L hL t hs hsty hsid hp hpo ho
+  parseTriple_printTriple L hL t hs hsty hsid hq hpo ho
 
 /-- Writing a graph and reading the text back: the same triples, their number, no error. -/
 theorem graph_round_trip (L : Leaf) (ts : List Triple) (h : ∀ t ∈ ts, LineOK L t) :
@@ -85,9 +88,9 @@ theorem predicate_print_stable (L : Leaf) (hL : LeafLaws L) (p : Pred) (hp : Pre
   rw [predicate_round_trip L hL p hp]; rfl
 
 theorem triple_print_stable (L : Leaf) (hL : LeafLaws2 L) (t : Triple)
-    (hs : NodeOK t.s) (hsty : noSpace t.s.ty) (hsid : noSpace t.s.id) (hp : noSpace t.p.id) (hpo : PredOK L t.p) (ho : ObjOK L t.o) :
+    (hs : NodeOK t.s) (hsty : noSpace t.s.ty) (hsid : noSpace t.s.id) (hq : QuoteScans L t.p.id) (hpo : PredOK L t.p) (ho : ObjOK L t.o) :
     (parseTriple L (printTriple L t)).map (printTriple L) = some (printTriple L t) := by
-  rw [triple_round_trip L hL t hs hsty hsid hp hpo ho]; rfl
+  rw [triple_round_trip L hL t hs hsty hsid hq hpo ho]; rfl
 
 /-! Non-vacuity: the laws are satisfiable (a toy codec meets all of them), a concrete triple meets the
     hypotheses of `triple_round_trip`, and concrete instances of the integer codec. -/
@@ -159,10 +162,21 @@ theorem toyLeaf_laws : LeafLaws2 toyLeaf where
     simp only [toyLeaf, List.mem_append, List.mem_replicate, List.mem_singleton] at hc
     rcases hc with (⟨_, rfl⟩ | rfl) | ⟨_, rfl⟩ <;> decide
 
-def exTriple : Triple := ⟨⟨[47, 117], [97]⟩, .tmp [112, 34, 64, 91] ⟨5, 3600⟩, .lit (.text [32, 93, 32, 47])⟩
+/-- The predicate's ID is `x] /y`: the point the former hypothesis excluded. -/
+def exTriple : Triple := ⟨⟨[47, 117], [97]⟩, .tmp [120, 93, 32, 47, 121] ⟨5, 3600⟩, .lit (.text [32, 93, 32, 47])⟩
 example : parseTriple toyLeaf (printTriple toyLeaf exTriple) = some exTriple :=
   triple_round_trip toyLeaf toyLeaf_laws exTriple ⟨by decide, by decide, by decide⟩ (by intro c hc; revert c; decide)
-    (by intro c hc; revert c; decide) (by intro c hc; revert c; decide) rfl trivial
+    (by intro c hc; revert c; decide)
+    (by
+      intro qb hqb rest
+      have : qb = [120, 93, 32, 47, 121] := by
+        have h' : ([120, 93, 32, 47, 121] : Bytes) ++ [dq] = qb ++ [dq] := by
+          simpa [toyLeaf, exTriple, Pred.id] using hqb
+        exact (List.append_cancel_right h').symm
+      subst this
+      have e : scanQuoted ((34 : UInt8) :: rest) = 0 := by rw [scanQuoted.eq_def]; rfl
+      simp [scanQuoted, dq, e])
+    rfl trivial
 example : parseNode (printNode ⟨[47, 117], [97, 32, 98]⟩) = some ⟨[47, 117], [97, 32, 98]⟩ := by decide
 example : parseInt64 (fmtInt (-9223372036854775808)) = some (-9223372036854775808) := by
   exact parseInt64_fmtInt _ (by constructor <;> decide)
